@@ -96,12 +96,14 @@ def kc_runs(case, forms=("function",), dtypes=("float64",), beyond=False):
     return out
 
 
-def record_validate_judge(ctx, runs, each, label, batch=15000):
+def record_validate_judge(ctx, runs, each, label, batch=None):
     """record -> validate -> judge in batches of runs: the traces of one batch (tens of kilobytes each) are dropped
     before the next is recorded -- the thorough tiers have hundreds of thousands of runs, and holding all of their
     traces at once took more than 40 GB"""
     from props import cluster_common as cc
     refused = 0
+    if batch is None:       # (a batch of 15000 thorough-tier traces -- up to 40 frames, every proposal -- is ~20 GB of lists)
+        batch = 15000 if ctx.tier == "quick" else 5000
     for i in range(0, len(runs), batch):
         traces = core.pmap(cc.record, runs[i:i + batch], chunk=100)
         refused += sum(1 for tr in traces if tr.get("rejected_input"))
